@@ -84,10 +84,12 @@ def _run(tier, seed, replay=None):
         os.makedirs(d, exist_ok=True)
         res = vlib.harness_json(vsf, ["run", "-dir", d, "-configs", ",".join(configs), "-ops", str(ops), "-seed", str(sd),
                                       "-deadline", "600s"], wd, timeout=3000, name="vsf_" + label)
-        if res.get("inconclusive"):
-            raise vlib.Inconclusive("; ".join(res["inconclusive"][:5]))
         for viol in res["violations"]:
             v.violation(viol["sig"], viol["what"], viol["replay"])
+        if res.get("inconclusive") and not v.violations:
+            raise vlib.Inconclusive("; ".join(res["inconclusive"][:5]))
+        if res.get("inconclusive"):
+            continue
         tot["evaluations"] += res["evaluations"]
         tot["distinct"] += res["distinct"]
         tot["events"] += res["norm_events"]
